@@ -173,12 +173,19 @@ def splice(tmpl_path, repo_root):
                     ats.append((None, 'start', buf))
                 else:
                     break
-            f = find_fn(repo_text(a['file']), a['fn'], a.get('ctx'), int(a.get('index', 0)))
+            if 'const' in a:
+                # a const initialiser hosted as a function body (R2), so that the rewrite directives apply to it
+                c = find_const(repo_text(a['file']), a['const'], a.get('ctx'), int(a.get('index', 0)))
+                f = dict(body='{\n' + c['expr'] + '\n}', line=c['line'] - 1, sig_line=c['line'], sig='const ' + a['const'])
+                a['fn'] = 'const ' + a['const']
+                out.rewrites.append('R2 const %s (%s:%d) hosted as fn body' % (a['const'], a['file'], c['line']))
+            else:
+                f = find_fn(repo_text(a['file']), a['fn'], a.get('ctx'), int(a.get('index', 0)))
             if 'sig' in a:
                 if norm(strip_lifetimes(a['sig'])) != norm(strip_lifetimes(f['sig'])):
                     raise LostAnchor('signature of %s in %s changed: expected `%s`, found `%s`' % (a['fn'], a['file'], a['sig'], norm(f['sig'])))
             body = f['body']
-            out.anchors.append(dict(file=a['file'], item='fn ' + a['fn'], line=f['sig_line'], sig=norm(f['sig'])))
+            out.anchors.append(dict(file=a['file'], item=('fn ' + a['fn']) if 'const' not in a else a['fn'], line=f['sig_line'], sig=norm(f['sig'])))
             # loop clauses (insert from the last loop backwards so positions stay valid)
             if loops:
                 found = find_loops(body)
